@@ -495,11 +495,11 @@ theorem step_Wf {s s' : Sys} {l : Label} (h : Wf s) (hs : step s l = some s') : 
       have hcdef := h.absent c habs
       have hcnot : ∀ g, c ∉ (s.groups g).members := fun g hc => (h.listed g c hc).2 habs
       -- creating task c (not listed anywhere) with inherited group `base` and membership `m` listed in `m`
-      have key : ∀ (bse : Option Nat) (s1 : Sys),
+      have key : ∀ (bse : Option Nat) (d : Nat) (s1 : Sys),
           (∀ g, bse = some g → (s.groups g).entered = true) →
-          s1.tasks = (setTask s c { status := .fresh, base := bse, member := none }).tasks →
+          s1.tasks = (setTask s c { status := .fresh, base := bse, member := none, depth := d }).tasks →
           s1.groups = s.groups → Wf s1 := by
-        intro bse s1 hbe ht hg
+        intro bse d s1 hbe ht hg
         refine ⟨?_, ?_, ?_, ?_, ?_, ?_, ?_, ?_, ?_⟩
         · intro x hx; rw [ht] at hx ⊢; simp only [setTask_tasks] at hx ⊢
           split at hx
@@ -537,7 +537,7 @@ theorem step_Wf {s s' : Sys} {l : Label} (h : Wf s) (hs : step s l = some s') : 
         split at hs
         · rename_i hcg
           simp only [Option.some.injEq] at hs; subst hs
-          exact key none _ (fun g hg => by cases hg) rfl rfl
+          exact key none _ _ (fun g hg => by cases hg) rfl rfl
         · rename_i g hcg
           split at hs
           · simp at hs
@@ -607,7 +607,7 @@ theorem step_Wf {s s' : Sys} {l : Label} (h : Wf s) (hs : step s l = some s') : 
                 have hxc : x ≠ c := fun e => hcnot g' (e ▸ hx)
                 simp only [hxc, ↓reduceIte] at hl ⊢; exact h.aborted g' x ha hx hl
       · simp only [Option.some.injEq] at hs; subst hs
-        exact key (ctxGroup (s.tasks t)) _ (fun g hg => ctxGroup_entered h t g hg) rfl rfl
+        exact key (ctxGroup (s.tasks t)) _ _ (fun g hg => ctxGroup_entered h t g hg) rfl rfl
     · simp at hs
   | spawnfail t c =>
     simp only [step] at hs
